@@ -213,11 +213,16 @@ def c13_sweep(binary):
              'exhaustive': viol is None and pairs == 2 * 65536 * 64536, 'wall_s': round(time.time() - t0, 1)}, viol)
 
 
+# One trace executes in milliseconds (tens of ms under sanitizers); anything that needs longer than this
+# on replay is a hang. Kept short because minimising a hang costs this much per candidate.
+HANG_S = 6
+
+
 def triage(prop, profile, variant, binary, tier, verif_seed, v, needs_history_rule=False, crash_note_ops=()):
     """Confirm, minimise, re-confirm in a fresh process, match against known findings.
     Returns ('violation', replay_path) | ('known', entry) | ('note', text)."""
     original = K.gen_trace(binary, profile, v['seed'])
-    o = K.run_trace(binary, original, timeout=60)
+    o = K.run_trace(binary, original, timeout=HANG_S)
     if not o.failed:
         raise K.HarnessError('violation at run %d (seed %d, %s) does not reproduce on replay: nondeterminism'
                              % (v['run'], v['seed'], v['vclass']))
@@ -229,8 +234,8 @@ def triage(prop, profile, variant, binary, tier, verif_seed, v, needs_history_ru
     v = dict(v)
     v['vclass'] = ref_class
     v['msg'] = o.msg or v['msg']
-    minimised, tests = K.minimise(binary, original, ref_class, timeout=60)
-    o2 = K.run_trace(binary, minimised, timeout=60)
+    minimised, tests = K.minimise(binary, original, ref_class, timeout=HANG_S)
+    o2 = K.run_trace(binary, minimised, timeout=HANG_S)
     if not K.same_failure(o2, ref_class):
         raise K.HarnessError('minimised trace does not fail identically in a fresh process')
     v['msg'] = o2.msg or v['msg']
@@ -243,7 +248,7 @@ def triage(prop, profile, variant, binary, tier, verif_seed, v, needs_history_ru
         ops = [l for l in lines if l.split(' ')[0] not in ('CFG', 'PROC', 'MGR', 'TZ', 'REF')]
         if ops:
             alone = K.join_trace(head, cfg + ops[-1:])
-            o3 = K.run_trace(binary, alone, timeout=60)
+            o3 = K.run_trace(binary, alone, timeout=HANG_S)
             if K.same_failure(o3, ref_class):
                 return ('note', 'crash %s needs no history (reproduces with the final op alone: %s); '
                         'a fresh time zone fails too, so this is C09\'s subject, not C08\'s'
